@@ -14,6 +14,7 @@ import (
 	"io"
 	mrand "math/rand/v2"
 	"net"
+	"runtime"
 	"strings"
 	"testing"
 	"time"
@@ -236,6 +237,48 @@ func TestVerif_C06(t *testing.T) {
 		}
 		if vkind != "" {
 			r.Violation(id, "C06:"+vkind, fmt.Sprintf("%s; configuration %+v", vdet, vcfg), vcfg)
+		} else {
+			r.Pass(id)
+		}
+	}
+
+	// forced overlap: connection A held between authorisation and session attachment while B
+	// arrives and completes (both must still agree with the server on their own keys)
+	for i := 0; i < r.Pick(16, 120); i++ {
+		transport := []string{"cdn", "direct"}[i%2]
+		id := fmt.Sprintf("auth-window-%s-%d", transport, i)
+		if !r.Mine(id) {
+			continue
+		}
+		r.Case(id, transport)
+		var vkind, vdet string
+		prev := runtime.GOMAXPROCS(1) // buffer pools are per-P: one P makes reuse by the next connection likely
+		p, leftover := vk.InBubble(t, func() {
+			res, _ := authWindow(t, transport, r.Rand("c06w", i))
+			for k, c := range res {
+				name := []string{"the held connection A", "the overlapping connection B"}[k]
+				switch {
+				case !c.done || c.err != nil:
+					vkind, vdet = "handshake-refused", fmt.Sprintf("%s (%s transport) did not complete its handshake although it is correctly configured: done=%v err=%v", name, transport, c.done, c.err)
+				case c.srvKey == nil:
+					vkind, vdet = "not-registered", fmt.Sprintf("%s completed its handshake but the server has no session for it", name)
+				case *c.srvKey != c.key:
+					vkind, vdet = "session-key", fmt.Sprintf("%s: client and server ended up with different session keys", name)
+				}
+				if vkind != "" {
+					break
+				}
+			}
+		})
+		runtime.GOMAXPROCS(prev)
+		if p != nil && !leftover && vkind == "" {
+			vkind, vdet = "panic", fmt.Sprint(p)
+		}
+		r.Count("evaluations", 1)
+		r.Count("forced_auth_windows", 1)
+		r.Distinct("cases", vk.Hash64("aw", transport, i))
+		if vkind != "" {
+			r.Violation(id, "C06:"+vkind, vdet+" (forced overlap at disp.userResolved)", nil)
 		} else {
 			r.Pass(id)
 		}
